@@ -21,7 +21,7 @@ ASSUMPTIONS = ["the scheduler serialises real threads; a race whose window lies 
                "oracle (5) (screen = printed lines in file order + last frame) is evaluated for Live displays whose "
                "frames carry unique tokens; see the known finding about the print-versus-refresh window",
                "a wall-clock watchdog (30 s per schedule) firing is inconclusive"]
-REQUIRED = ["mon.log_call_site", "mon.nonterminal_final_frame", "mon.schedules", "mon.exactly_once_contiguous", "mon.capture_isolation", "mon.record_order",
+REQUIRED = ["mon.redirected_prints", "mon.log_call_site", "mon.nonterminal_final_frame", "mon.schedules", "mon.exactly_once_contiguous", "mon.capture_isolation", "mon.record_order",
             "mon.deadlock_detector", "mon.screen_replay", "mon.context_switches"]
 MIN_NONTRIVIAL = {"quick": 800, "thorough": 50000}
 
@@ -69,7 +69,7 @@ def _instrument(sched):
         coop.patch_thread_class(rp._TrackThread, lambda: holder["sched"])
         _patched = True
     # module globals used at construction time of Live / Progress / their helper threads
-    for mod in (rl, rp):
+    for mod in (rl, rp, rfp):
         mod.RLock = (lambda name: lambda: coop.CoopRLock(holder["sched"], name + ".RLock"))(mod.__name__)
         mod.Event = (lambda name: lambda: coop.CoopEvent(holder["sched"], name + ".Event",
                                                          max_firings=holder["firings"]))(mod.__name__)
@@ -80,6 +80,8 @@ def _uninstrument():
     import rich.live as rl
     import rich.progress as rp
     from rv.sched import scheduler as S
+    import rich.file_proxy as rfp
+    rfp.RLock = threading.RLock
     for mod in (rl, rp):
         mod.RLock = threading.RLock
         mod.Event = threading.Event
@@ -174,13 +176,40 @@ def wl_concurrent_logs(ctx, rng, case_no):
     execute(ctx, prog, "none", rng.random() < 0.5, 0, 12, strategy, strat_kind, sseed)
 
 
+def wl_redirected_prints(ctx, rng, case_no):
+    """Threads that print with the BUILTIN print() (to stdout and stderr) while a live display redirects both through
+    the console: every printed line reaches the file exactly once (the redirect's buffer and decoder are shared by
+    all threads)."""
+    from rv.sched import scheduler as S
+    nthreads = rng.choice([2, 2, 3])
+    prog = [[["pyprint", "T%d.%d" % (th, i)] for i in range(rng.randint(1, 3))] for th in range(nthreads)]
+    if rng.random() < 0.3:
+        prog[0].append(["print", "T0.9", 1])
+    strat_kind = rng.choice(["pct2", "pct3", "random", "random"])
+    sseed = rng.randrange(1 << 30)
+    if strat_kind == "random":
+        strategy = S.RandomWalk(sseed, switch_prob=rng.choice([0.05, 0.2, 0.5]))
+    else:
+        strategy = S.PCT(sseed, depth=int(strat_kind[3]), est_steps=rng.choice([200, 600]))
+    import sys
+    saved = (sys.stdout, sys.stderr)
+    try:
+        execute(ctx, prog, "live", True, 0, 12, strategy, strat_kind, sseed)
+    finally:
+        sys.stdout, sys.stderr = saved
+
+
 def wl_nonterminal_live(ctx, rng, case_no):
     """Live displays with a refresh thread on a console that is NOT a terminal (output piped to a file): nothing is
     drawn while it runs, the final frame is written once at stop.  The refresh thread and stop() meet in a narrow
     window, so this configuration gets many cheap schedules of its own."""
     from rv.sched import scheduler as S
     prog = gen_program(rng, "live_auto")
-    prog = [[op for op in ops if op[0] not in ("start", "stop")] or [["print", "T%d.0" % th, 1]] for th, ops in enumerate(prog)]
+    keep_stops = rng.random() < 0.3        # a worker thread may stop the display while others still print
+    prog = [[op for op in ops if op[0] != "start" and (keep_stops or op[0] != "stop")] or [["print", "T%d.0" % th, 1]]
+            for th, ops in enumerate(prog)]
+    if keep_stops and not any(op[0] == "stop" for ops in prog for op in ops):
+        prog[rng.randrange(len(prog))].append(["stop"])
     strat_kind = rng.choice(["pct2", "pct3", "random", "random"])
     sseed = rng.randrange(1 << 30)
     if strat_kind == "random":
@@ -401,6 +430,13 @@ def execute(ctx, prog, display, terminal, firings, height, strategy, strat_kind,
                 if ct.count("S:same") != 1 or _MARK.search(ct):
                     ctx.violation("capture-of-identical-print-wrong:%s" % display, dict(wit, captured=ct[:200]))
                     return
+    if redirect:
+        # builtin print() is two write() calls (the text, then the line end): lines of different threads may share a
+        # console write and the screen order of their halves is nobody's promise - only "every line exactly once"
+        # (oracle 1 above) is asserted for these runs
+        ctx.count("mon.redirected_prints")
+        ctx.case_done(("redir", repr(prog), strat_kind, sseed), True, {"program": prog, "strategy": strat_kind})
+        return
     # each print reaches the file in ONE write call
     for w in file.writes:
         ids = {m.split(":")[1] for m in _MARK.findall(sgr.decode(w[2]).text)}
@@ -486,7 +522,8 @@ def execute(ctx, prog, display, terminal, firings, height, strategy, strat_kind,
             return
     # (5n) a Live display on a console that is not a terminal draws nothing while it runs and writes its frame once
     # when it stops (nothing if transient): all frame tokens in the file belong to ONE frame, each exactly once
-    if display.startswith("live") and not terminal and not restarts:
+    only_stops = restarts and not any(op[0] == "start" for ops in prog for op in ops)
+    if display.startswith("live") and not terminal and (not restarts or only_stops):
         ctx.count("mon.nonterminal_final_frame")
         ids = _FRAME.findall(stream)
         labels = {i.rsplit("-", 1)[0] for i in ids}
@@ -497,7 +534,7 @@ def execute(ctx, prog, display, terminal, firings, height, strategy, strat_kind,
             ctx.violation("transient-display-left-a-frame-in-non-terminal-output:%s" % display, dict(wit, frame_tokens=ids[:12]))
             return
         if len(labels) > 1 or len(ids) != len(set(ids)):
-            ctx.violation("final-frame-written-more-than-once-to-non-terminal:%s" % display,
+            ctx.violation("final-frame-written-more-than-once-to-non-terminal:%s%s" % (display, ":a-thread-stops-the-display" if only_stops else ""),
                           dict(wit, frame_tokens=ids[:20], stream=stream[-600:]))
             return
     # (5') Progress displays: no printed line lost / overwritten on screen, and exactly the rows of the last drawn
@@ -573,6 +610,7 @@ def workloads(tier):
     return [WL("schedules", wl_schedules, 400000 if big else 6000),
             WL("nonterminal_live", wl_nonterminal_live, 600000 if big else 24000),
             WL("concurrent_logs", wl_concurrent_logs, 400000 if big else 16000),
+            WL("redirected_prints", wl_redirected_prints, 300000 if big else 12000),
             WL("bounded_preemption_dfs", wl_dfs, 2000 if big else 16)]
 
 
